@@ -25,6 +25,11 @@ CHECKS = {
         note="Trusted: Coq kernel + VM; FRONT hook printer and gen/dl.py translation of the dump into the Coq plan; the hand-written model of the generated code (Engine/Eval.v) is tied by correspondence runs, not verified; rustc; hashbrown/std collections; termination is a hypothesis (fuel) discharged by the runs; values are small i32 (no overflow).",
         technique="Coq proof (semi-naive invariant + evaluator/specification equivalence) over the dumped plan validated in Gallina + model/impl/spec correspondence (FRONT + PROG)",
         ref="5/C01"),
+    "C02": dict(
+        text="Theorems (Coq, relations without aggregates): one iteration of the parallel head update is schedule independent — for every distribution of the derived facts over workers and every interleaving of their atomic steps that lets all workers finish, `new` holds exactly what the serial head update adds, each fact once, each pushed exactly once, __changed set iff something was added; an unfinished state always has an enabled worker (no deadlock in the modelled discipline); every parallel run (any distribution and schedule in every iteration of every SCC) computes the least model, hence the same relations as the serial run. Tie: every program as ascent_par! with / without #![inter_rule_parallelism] in rayon pools of 1, 2, 3, 8, 16 threads under seeded perturbation schedules vs the serial reference (impl = model = spec).",
+        note="Trusted: as C01 plus the perturbation hook. PARTIAL: aggregation and lattices (key mutex + re-check) are in the tie, not in the theorems. RESIDUE (no executable model can exhibit it): real DashMap / RwLock / Mutex / boxcar implementations, rayon work stealing, visibility of the Relaxed __changed store after the scope join — assumed linearizable; the real schedule space is sampled, not enumerated.",
+        technique="Coq proof (interleaving invariant over atomic steps + relational parallel engine = least model) + seeded schedule perturbation of the real binary",
+        ref="5/C02"),
     "C04": dict(
         text="Theorem (Coq): for every plan accepted by the validator, every duplicate-free input and every interpretation whose aggregators are permutation invariant (proved for the shipped ones), the rows after run() are the stratified model: strata respect the dependencies (aggregated / negated relations are complete before use), each stratum is the least set closed under its rules that extends the lower strata and leaves the aggregated relations fixed; an aggregate ranges over the distinct matching tuples, each once, and the rule continues once per returned value. The first formulation (unconstrained least model) is refuted in Coq with a computed witness. Tie: stratified programs with count/sum/min/max/negation at several levels through FRONT+PROG vs model vs stratified oracle.",
         note="Trusted: as C01; aggregator semantics as modelled in Agg/AggModel.v (C17); inputs are sets (duplicate input rows are outside the statement); python Tarjan stratification for the oracle is re-checked inside Coq (Strat.stratified).",
@@ -50,6 +55,11 @@ CHECKS = {
         note="Trusted: Coq kernel + VM; hand-written Gallina mirror of the index sources (tied, not verified); DashMap shard locks / RwLock / hashbrown / std collections atomic and as documented; real schedules are sampled, not enumerated; CRelIndex::len_estimate only tied.",
         technique="Coq refinement proof over executable model (order/hash oracles and interleavings universally quantified) + model/impl/oracle correspondence (ds_index)",
         ref="5/C19"),
+    "C20": dict(
+        text="Theorems (Coq): the life of a CRelNoIndex-backed index across a run (reset + re-index at run start, take / Default / insert from any worker / zip-merge / swap per SCC, any number of SCC visits, any thread indices, any order of inserts) loses and duplicates nothing for EVERY value stored in the struct (any shard count, left by construction or by a run in any pool), never panics, and ends with the run pool's shard count; index_insert is always in bounds (thread index modulo shard count); without the reset at run start a value left by a run in a LARGER pool loses rows (refuted with a computed witness and reproduced on the real type — the pre-fix behaviour); all DashMap-based indices share the process-constant shards_count. Isolation in the model is the absence of shared state, checked against the source on every run by a scan of every static / thread_local / lazy_static against a reviewed allow-list (statistics counters must stay write-only). Tie: instances constructed in one pool, run in another, re-run in a third, nested installs; all jobs of a binary (different generated types, serial and parallel) running at once on OS threads plus two instances of one type racing; each equals the instance run alone; index-level protocol on the real type vs the Coq model.",
+        note="Trusted: as C01/C19; the source scan is regular-expression based; rayon gives the run() thread one fixed registry for the duration of the call. RESIDUE: data races on the `static mut` statistics are UB in principle (not observable in results); real scheduling is sampled.",
+        technique="Coq proof over the pool protocol model + source scan for shared state + program-level and index-level correspondence across pools",
+        ref="5/C20"),
 }
 
 NOT_YET = {}
@@ -79,8 +89,8 @@ def main():
         engines=[dict(name="coq", path="coq/", serves_properties=sorted(CHECKS), kind_free_text="Coq 8.16.1 development: executable Gallina models + theorems; property files coq/Props/Cxx.v"),
                  dict(name="ds_driver", path="harness/ds_driver", serves_properties=[i for i in sorted(CHECKS) if i in ("C17",)], kind_free_text="Rust driver running case tables against the real aggregators of /repo"),
                  dict(name="ds_index / ds_lat / ds_uf", path="harness/", serves_properties=[i for i in sorted(CHECKS) if i in ("C16", "C18", "C19")], kind_free_text="Rust drivers running operation histories against the real index types, lattices and union-find structures"),
-                 dict(name="FRONT", path="/repo/ascent_macro/src/verif_hook.rs", serves_properties=[i for i in sorted(CHECKS) if i in ("C01", "C02", "C04", "C05", "C06", "C13", "C14")], kind_free_text="in-process front-end driver (cargo feature verif_hooks): runs the real ascent_impl passes on program texts and dumps the MIR plan"),
-                 dict(name="PROG", path="gen/prog.py", serves_properties=[i for i in sorted(CHECKS) if i in ("C01", "C02", "C04", "C05", "C06", "C13", "C14")], kind_free_text="generated crates of ascent programs compiled by rustc against /repo and run on embedded inputs / histories")],
+                 dict(name="FRONT", path="/repo/ascent_macro/src/verif_hook.rs", serves_properties=[i for i in sorted(CHECKS) if i in ("C01", "C02", "C04", "C05", "C06", "C13", "C14", "C20")], kind_free_text="in-process front-end driver (cargo feature verif_hooks): runs the real ascent_impl passes on program texts and dumps the MIR plan"),
+                 dict(name="PROG", path="gen/prog.py", serves_properties=[i for i in sorted(CHECKS) if i in ("C01", "C02", "C04", "C05", "C06", "C13", "C14", "C20")], kind_free_text="generated crates of ascent programs compiled by rustc against /repo and run on embedded inputs / histories")],
         checks=checks, not_applicable=na,
         notes="Every check = (1) rebuild + audit of the Coq property file (Print Assumptions, forbidden vernacular, obligations==discharged) and (2) correspondence of the executable model with the implementation rebuilt from /repo's working tree. See DESIGN.md.")
     open(os.path.join(VERIF, "MANIFEST.json"), "w").write(json.dumps(man, indent=1) + "\n")
